@@ -1,5 +1,6 @@
 import WindVerif.Proofs.Generic
 import WindVerif.Proofs.GenericEq
+import WindVerif.Proofs.BatcherLazy
 /-!
 # C19 — Generic sequence helpers equal their brute-force definitions
 
@@ -175,5 +176,94 @@ example : subSeqE (fun a b => decide (a < b)) [1, 2] [0, 2, 3] = true ∧
     subSeqE (fun a b => decide (a < b)) [2, 3] [0, 1, 2] = false := by decide
 example : searchSubSeqE (nanEq 1) [] [0] = .error .valueError ∧ searchSubSeqE (nanEq 1) [0] [] = .error .valueError ∧
     searchSubSeqE (nanEq 1) [0, 0] [0] = .ok [] := ⟨by rfl, by rfl, by rfl⟩
+
+/-! ### BatcherIter as a lazy consumer of its source
+
+`Model/BatcherLazy.lean`: the generator as a state machine advanced one `next()` call at a time over a source `⟨items, fails⟩`
+(`fails`: the pull after the last item raises instead of ending the iteration).  `BatcherLazy.take b src k` = the outcomes of the first
+`k` calls (`batch l` / `stop` = StopIteration / `raised` = the source's exception) and the state afterwards (`pulled` = number of items
+taken from the source so far).  The constructor rejects `batch_size ≤ 0`: hypothesis `0 < b`.  `takeAhead` is the same for a variant
+that holds a full batch back until one more item has been pulled. -/
+
+/-- no read-ahead: when the `j`-th full batch is handed over exactly `j * b` items have been pulled, and the batches so far are the
+consecutive slices of the source -/
+theorem lazy_pulled (items : List Int) (fails : Bool) (b j : Nat) (hb : 0 < b) (hj : j * b ≤ items.length) :
+    (BatcherLazy.take b ⟨items, fails⟩ j).2.pulled = j * b ∧
+    (BatcherLazy.take b ⟨items, fails⟩ j).1 =
+      (List.range j).map (fun i => BatcherLazy.Outcome.batch ((items.drop (i * b)).take b)) := by
+  first | exact WindVerif.BatcherLazy.lazy_pulled .. | (apply WindVerif.BatcherLazy.lazy_pulled <;> assumption)
+
+/-- … and nothing is held back inside the generator between two calls -/
+theorem lazy_clean (items : List Int) (fails : Bool) (b j : Nat) (hb : 0 < b) (hj : j * b ≤ items.length) :
+    (BatcherLazy.take b ⟨items, fails⟩ j).2 = ⟨j * b, [], false⟩ := by
+  first | exact WindVerif.BatcherLazy.lazy_clean .. | (apply WindVerif.BatcherLazy.lazy_clean <;> assumption)
+
+/-- a source that ends normally: calling `next` yields exactly the batches of the list model `batcherIter`, then `stop` for ever, and
+the number of items pulled is the length of the source -/
+theorem agrees_with_list (items : List Int) (b k : Nat) (hb : 0 < b) :
+    (BatcherLazy.take b ⟨items, false⟩ ((batcherIter items b).length + k)).1 =
+      (batcherIter items b).map BatcherLazy.Outcome.batch ++ List.replicate k BatcherLazy.Outcome.stop ∧
+    (BatcherLazy.take b ⟨items, false⟩ ((batcherIter items b).length + k)).2.pulled = items.length := by
+  first | exact WindVerif.BatcherLazy.agrees_with_list .. | (apply WindVerif.BatcherLazy.agrees_with_list <;> assumption)
+
+/-- a source that raises after its items: all `items.length / b` complete batches are handed over first (in particular the last one
+when `items.length % b = 0`), then the exception passes through, then `stop` for ever -/
+theorem failing_source_batches (items : List Int) (b k : Nat) (hb : 0 < b) :
+    (BatcherLazy.take b ⟨items, true⟩ (items.length / b + 1 + k)).1 =
+      (List.range (items.length / b)).map (fun i => BatcherLazy.Outcome.batch ((items.drop (i * b)).take b))
+        ++ BatcherLazy.Outcome.raised :: List.replicate k BatcherLazy.Outcome.stop ∧
+    (BatcherLazy.take b ⟨items, true⟩ (items.length / b + 1 + k)).2.pulled = items.length := by
+  first | exact WindVerif.BatcherLazy.failing_source_batches .. | (apply WindVerif.BatcherLazy.failing_source_batches <;> assumption)
+
+/-- the read-ahead variant gives the same batches over a source that ends normally (reading to the end cannot see the difference) … -/
+theorem ahead_same_list (items : List Int) (b k : Nat) (hb : 0 < b) :
+    (BatcherLazy.takeAhead b ⟨items, false⟩ ((batcherIter items b).length + k)).1 =
+      (batcherIter items b).map BatcherLazy.Outcome.batch ++ List.replicate k BatcherLazy.Outcome.stop ∧
+    (BatcherLazy.takeAhead b ⟨items, false⟩ ((batcherIter items b).length + k)).1 =
+      (BatcherLazy.take b ⟨items, false⟩ ((batcherIter items b).length + k)).1 := by
+  first | exact WindVerif.BatcherLazy.ahead_same_list .. | (apply WindVerif.BatcherLazy.ahead_same_list <;> assumption)
+
+/-- … but it has pulled one item too many whenever it hands over a batch that is followed by another item -/
+theorem ahead_pulled (items : List Int) (fails : Bool) (b j : Nat) (hb : 0 < b) (h1 : 1 ≤ j) (hj : j * b + 1 ≤ items.length) :
+    (BatcherLazy.takeAhead b ⟨items, fails⟩ j).2.pulled = j * b + 1 ∧ (BatcherLazy.take b ⟨items, fails⟩ j).2.pulled = j * b := by
+  first | exact WindVerif.BatcherLazy.ahead_pulled .. | (apply WindVerif.BatcherLazy.ahead_pulled <;> assumption)
+
+/-- … and over a source that raises it hands over all batches of the list but the last one, complete or not -/
+theorem ahead_failing_batches (items : List Int) (b k : Nat) (hb : 0 < b) :
+    (BatcherLazy.takeAhead b ⟨items, true⟩ ((batcherIter items b).dropLast.length + (1 + k))).1 =
+      (batcherIter items b).dropLast.map BatcherLazy.Outcome.batch
+        ++ BatcherLazy.Outcome.raised :: List.replicate k BatcherLazy.Outcome.stop := by
+  first | exact WindVerif.BatcherLazy.ahead_failing_batches .. | (apply WindVerif.BatcherLazy.ahead_failing_batches <;> assumption)
+
+/-- that is one complete batch fewer than the real code (`failing_source_batches`) when the items fill the batches exactly -/
+theorem ahead_failing_count (items : List Int) (b : Nat) (hb : 0 < b) (h0 : items.length % b = 0) (hpos : 0 < items.length) :
+    (batcherIter items b).dropLast.length + 1 = items.length / b := by
+  first | exact WindVerif.BatcherLazy.ahead_failing_count .. | (apply WindVerif.BatcherLazy.ahead_failing_count <;> assumption)
+
+/-- witness, items `[0,1,2,3]`, `b = 2`: after the first batch the variant has pulled 3 items (and holds `2` back), the code 2 -/
+theorem ahead_reads_ahead :
+    (BatcherLazy.takeAhead 2 ⟨[0, 1, 2, 3], false⟩ 1) = ([.batch [0, 1]], ⟨3, [2], false⟩) ∧
+    (BatcherLazy.take 2 ⟨[0, 1, 2, 3], false⟩ 1) = ([.batch [0, 1]], ⟨2, [], false⟩) := by
+  first | exact WindVerif.BatcherLazy.ahead_reads_ahead .. | (apply WindVerif.BatcherLazy.ahead_reads_ahead <;> assumption)
+
+/-- witness, the same items over a source that raises: the variant hands over `[0,1]` only, the code `[0,1]` and `[2,3]` -/
+theorem ahead_loses_batch :
+    (BatcherLazy.takeAhead 2 ⟨[0, 1, 2, 3], true⟩ 5).1 = [.batch [0, 1], .raised, .stop, .stop, .stop] ∧
+    (BatcherLazy.take 2 ⟨[0, 1, 2, 3], true⟩ 5).1 = [.batch [0, 1], .batch [2, 3], .raised, .stop, .stop] := by
+  first | exact WindVerif.BatcherLazy.ahead_loses_batch .. | (apply WindVerif.BatcherLazy.ahead_loses_batch <;> assumption)
+
+/-- non-vacuity: the hypotheses of `lazy_pulled` / `lazy_clean` / `ahead_pulled` / `ahead_failing_count` on concrete sources, and the
+machine on sources with a short last batch, over a failing source, and with `b = 1` -/
+example : 0 < 2 ∧ 2 * 2 ≤ ([0, 1, 2, 3, 4] : List Int).length ∧ 1 ≤ 2 ∧ 2 * 2 + 1 ≤ ([0, 1, 2, 3, 4] : List Int).length := by decide
+example : 0 < 2 ∧ ([0, 1, 2, 3] : List Int).length % 2 = 0 ∧ 0 < ([0, 1, 2, 3] : List Int).length := by decide
+example : BatcherLazy.take 2 ⟨[0, 1, 2, 3, 4], false⟩ 2 = ([.batch [0, 1], .batch [2, 3]], ⟨4, [], false⟩) ∧
+    BatcherLazy.takeAhead 2 ⟨[0, 1, 2, 3, 4], false⟩ 2 = ([.batch [0, 1], .batch [2, 3]], ⟨5, [4], false⟩) := by decide
+example : BatcherLazy.take 2 ⟨[0, 1, 2, 3, 4], false⟩ 5 =
+    ([.batch [0, 1], .batch [2, 3], .batch [4], .stop, .stop], ⟨5, [], true⟩) := by decide
+example : BatcherLazy.take 2 ⟨[0, 1, 2, 3, 4], true⟩ 4 = ([.batch [0, 1], .batch [2, 3], .raised, .stop], ⟨5, [], true⟩) := by decide
+example : (BatcherLazy.take 1 ⟨[7, 8], true⟩ 3).1 = [.batch [7], .batch [8], .raised] ∧
+    (BatcherLazy.takeAhead 1 ⟨[7, 8], true⟩ 3).1 = [.batch [7], .raised, .stop] := by decide
+example : (BatcherLazy.take 3 ⟨[], false⟩ 2) = ([.stop, .stop], ⟨0, [], true⟩) ∧
+    (BatcherLazy.take 3 ⟨[], true⟩ 2) = ([.raised, .stop], ⟨0, [], true⟩) := by decide
 
 end WindVerif.C19
